@@ -77,6 +77,10 @@ class StepBudgetExceeded(BaseException):
     """Raised by a monitor into the monitored code when a logical step budget is exhausted."""
 
 
+class WallClockSuspicion(BaseException):
+    """Raised by a generous per-case alarm: never a verdict by itself, only the reason to re-run the case under a logical budget over ALL code."""
+
+
 class Ctx:
     """Per-shard context: counters the evidence is assembled from."""
 
